@@ -153,12 +153,13 @@ func (res *CheckResult) check() {
 			res.checkVarType(*varDecl.Type)
 		}
 
-		if varDecl.Name != nil {
-			res.checkDuplicateVars(*varDecl.Name, varDecl)
-		}
-
+		// the origin is evaluated before the variable exists: it can only use the ones declared above it
 		if varDecl.Origin != nil {
 			res.checkVarOrigin(*varDecl.Origin, varDecl)
+		}
+
+		if varDecl.Name != nil {
+			res.checkDuplicateVars(*varDecl.Name, varDecl)
 		}
 	}
 	for _, statement := range res.Program.Statements {
